@@ -58,6 +58,55 @@ theorem C19_dispatch_defers :
       [.deferCall "closeCompressor", .deferCall "recover", .acq 0 .R, .deferRel 0 .R] := by
   decide +kernel
 
+/-! ### non-vacuity (audit)
+
+`C19_seq` on a history of five requests (encoded, panicking and recovered, unroutable, repeated)
+from a used ledger: the answers are those of fresh containers although the one piece of
+cross-request state — the ledger — does change along the history (so the projection in the
+statement hides nothing else, and the equation is about something).  `C19_frame` is about
+something too: the same analysis finds writes from the mutator entry points and on seeded facts. -/
+namespace C19Example
+
+def E0 : ReEnv := ⟨fun _ _ => true, fun _ _ => true⟩
+def cfg : Serve.Cfg :=
+  { routing := { router := .curly, services := [{ id := 0, root := "/a".toList, routes :=
+      [{ id := 7, method := "GET".toList, relPath := "/{i}".toList, consumes := [], produces := [], conds := [], noct := [] },
+       { id := 8, method := "GET".toList, relPath := "/boom".toList, consumes := [], produces := [], conds := [], noct := [] }] }] }
+    cfilters := [{ id := 1, pre := [.setAttr "k".toList "v".toList], kind := .pass, post := [] }]
+    routes := [{ id := 7, script := [.write "x".toList] }, { id := 8, script := [.write "y".toList, .panic "p".toList] }]
+    encoding := true
+    recover := true
+    recoverScript := some [.write "r".toList] }
+def rq (p ae : String) : Serve.SReq := { req := { method := "GET".toList, path := p.toList }, acceptEncoding := ae.toList }
+def history : List Serve.SReq := [rq "/a/1" "gzip", rq "/a/boom" "gzip", rq "/b" "", rq "/a/2" "", rq "/a/1" "gzip"]
+
+example := C19_seq E0 cfg .serveDispatch ⟨3, 3⟩ history
+
+/-- along the history the ledger moves (3 → 4 → 5 → 5 → 5 → 6 acquisitions), path parameters differ
+    from request to request, the second request panics and is recovered, the third is a 404 — and the
+    first and the last answer are identical -/
+example :
+    (Serve.serveSeq E0 cfg .serveDispatch ⟨3, 3⟩ history).map (·.world.acquired) = [4, 5, 5, 5, 6] ∧
+    (Serve.serveSeq E0 cfg .serveDispatch ⟨3, 3⟩ history).map (fun r => (r.rc.status, r.recoverCalls, r.rc.comp.map (·.payload))) =
+      [(some 200, 0, some "x".toList), (some 200, 1, some "yr".toList), (some 404, 0, none), (some 200, 0, none),
+       (some 200, 0, some "x".toList)] ∧
+    (Serve.serveSeq E0 cfg .serveDispatch ⟨3, 3⟩ history).map (fun r => r.log.head?.map (·.params)) =
+      [some [("i".toList, "1".toList)], some [], some [], some [("i".toList, "2".toList)], some [("i".toList, "1".toList)]] := by
+  decide
+
+/-- the frame analysis does find writes and aliasing appends when they are there: from the mutator
+    entry points of the real facts, and on seeded facts reachable through a call -/
+example : reachableWrites (analysis fnNames items mutatorEntries) ≠ [] := by decide +kernel
+example :
+    reachableWrites (analysis ["serve", "helper"] [⟨0, .call [1], 0, false, false⟩, ⟨1, .write 0, 0, false, false⟩] ["serve"]) =
+      [⟨1, .write 0, 0, false, false⟩] ∧
+    reachableAliasAppends (analysis ["serve", "helper"] [⟨0, .call [1], 0, false, false⟩, ⟨1, .aliasAppend "fs", 0, false, false⟩] ["serve"]) =
+      [⟨1, .aliasAppend "fs", 0, false, false⟩] ∧
+    reachableWrites (analysis ["serve", "helper"] [⟨1, .write 0, 0, false, false⟩] ["serve"]) = [] := by
+  decide
+
+end C19Example
+
 /-! The frame condition (Lemmas/StateShape.lean): the code has exactly the state this property's model
     accounts for — no further package-level variable, struct type or field; constants as modelled. -/
 -- also: Restful.StateShape.globals_shape
